@@ -292,7 +292,7 @@ fn runs_part(out: &mut Out, thorough: bool, rng: &mut Rng) {
     let runs = build_runs(thorough, rng);
     let cfgs: Vec<RunCfg> = runs.iter().map(|r| r.0.clone()).collect();
     let watchdog = std::time::Duration::from_secs(arg_u64("--watchdog-s", 25));
-    let strict_sim_panic = std::env::args().any(|a| a == "--strict-sim-panic");
+    let strict_sim_panic = true; // defect F13 (one simulation worker panics, the others keep running) was repaired in /repo
     let results = run_all(&cfgs, watchdog, 16);
     for ((cfg, exp), res) in runs.iter().zip(results.iter()) {
         let d = describe(cfg);
